@@ -105,3 +105,14 @@ Theorem C03_evaluate_vacuous_refuted :
   sat atom_denote W2_tree W_cst W2_formula.
 Proof. exact evaluate_vacuous_refuted. Qed.
 Print Assumptions C03_evaluate_vacuous_refuted.
+
+(* refuted (match expressions): the verdict depends on how an epsilon expansion is represented
+   (known finding K_mexpr_eps_shape); same string, same derivation, TT on the parser's tree, FF on
+   the fuzzer-shaped tree; the specification holds on both *)
+Theorem C03_mexpr_eps_shape_refuted :
+  yield W3_tree = yield W3p_tree /\
+  K_mexpr_eps_shape W3_formula = true /\
+  m_legacy W3p_tree W3p_formula = Ok TT /\ models atom_denote W3p_tree env_empty W3p_formula /\
+  m_legacy W3_tree W3_formula = Ok FF /\ models atom_denote W3_tree env_empty W3_formula.
+Proof. exact mexpr_eps_shape_refuted. Qed.
+Print Assumptions C03_mexpr_eps_shape_refuted.
